@@ -5,10 +5,11 @@
   3. "empty"/"fresh" sentinels: the constant the constructors store is the constant the tests compare  (R4)
   4. diagnostics: overriding entropy/float-table methods are clones of the trait defaults, `&M`
      forwards; no possibly-zero power of two (wrapping_pow2 at PRECISION == BITS) reaches a divisor    (R4/R3)
-the tolerance of maybe_exhausted is compared with the sealing addend as power-of-two polynomials over the widths. Not decided: num_valid_bits, bit-coder len(), numeric value of
+the tolerance of maybe_exhausted is compared with the sealing addend as power-of-two polynomials over the widths. num_valid_bits() is evaluated over the bit-length model that from_binary establishes. Not decided: bit-coder len(), numeric value of
 entropy / KL.
 """
 from vlib import sym, rules, effects, dageq, anchors, pow2
+from vlib.poly import Poly
 from vlib.effects import Unresolved
 import props.C08 as c08
 
@@ -204,6 +205,165 @@ def check_sentinels(ctx, F):
             ctx.unresolved('R4', role, b.defpath, 'no equality test on `range` found', key=k2)
         else:
             ctx.bad('R4', role, b.defpath, 'fresh range = %s but the test compares with %s' % (sent and sym.show(sent), [sym.show(x) for x in cmp_terms]), key=k2, loc=rules.loc(b))
+
+
+class _NoModel(Exception):
+    pass
+
+
+def _chunker_counts_ceil(F):
+    """the state chunker yields ceil(bitlen/W) items: (0 .. BITS - leading_zeros(x)).step_by(Chunk::BITS) + length-preserving adapters."""
+    ch = anchors.state_chunker(F)
+    if ch is None:
+        return None
+    _, paths = rules.evaluate(ch)
+    r = only_return(paths)
+    if r is None:
+        return None
+    t = r.ret
+    while t[0] == 'call' and t[1].endswith(('Iterator::map', 'Iterator::rev')):
+        t = t[2][0]
+    if not (t[0] == 'call' and t[1].endswith('Iterator::step_by') and t[2][1][0] == 'c' and t[2][1][1].endswith('BITS')):
+        return None
+    rng = t[2][0]
+    if not (rng[0] == 'agg' and rng[1][-1] == 'Range' and rng[2][0] == ('int', 0)):
+        return None
+    end = rng[2][1]
+    if end[0] == 'bin' and end[1] == 'Sub' and end[2][0] == 'c' and end[2][1].endswith('BITS') and pow2._lz(end[3]) == ('arg', 1):
+        return ch
+    return None
+
+
+def check_valid_bits(ctx, F):
+    """num_valid_bits() of a coder loaded by from_binary equals the size of the data, by bit-length accounting.
+
+    Step A (from_binary): the state accumulator starts at the constant 1 (bit length 1); every iteration that reads a word
+    replaces it by (acc << W) | word under the guard acc < 2^(S-W), so its bit length grows by exactly W and nothing is
+    shifted out.  Hence, after k words were absorbed:  bitlen(state) = 1 + k*W  and  remaining(bulk) = n - k.
+    Step B: the term num_valid_bits() returns is evaluated as a polynomial over that model
+    (leading_zeros(state) = S - bitlen, chunk count of the state = ceil(bitlen / W) = k + 1) and compared with n*W."""
+    key = 'R6/valid-bits/' + ANS
+    role = 'num_valid_bits() after from_binary(data) equals the number of bits in data'
+    fb = anchors.method(F, ANS, 'from_binary')
+    nv = anchors.method(F, ANS, 'num_valid_bits')
+    if fb is None or nv is None:
+        ctx.unresolved('R6', role, ANS, 'from_binary / num_valid_bits not found', key=key)
+        return
+    ctx.touch(fb); ctx.touch(nv)
+    ev, paths = rules.evaluate(fb)
+    fields = [f['name'] for f in F.adts[ANS]['variants'][0]['fields']]
+    si = fields.index('state')
+    # ---- step A
+    acc = None
+    why = None
+    for r in paths or []:
+        if r.end == 'return' and r.ret is not None and r.ret[0] == 'agg' and r.ret[1][-1] == 'Ok':
+            st = r.ret[2][0][2][si]
+            if st[0] != 'loop':
+                why = 'returned state is not the loop accumulator'
+            acc = st
+    if acc is None or why:
+        ctx.unresolved('R6', role, ANS, why or 'no accepting path', key=key)
+        return
+    local = acc[2]
+    for r in paths or []:
+        for e in r.events:
+            if e['kind'] == 'loop_enter' and e['head'] == acc[1]:
+                seed = e['pre'].get(local)
+                if not (seed and seed[0] == 'k' and seed[1] == 'one'):
+                    why = 'accumulator does not start at the constant 1'
+        if r.end == 'backedge':
+            v = r.store.get(local)
+            if v == acc:
+                continue
+            reads = [e for e in r.events if e['kind'] == 'call' and e['callee'].endswith('ReadWords::read')]
+            ok = v is not None and v[0] == 'bin' and v[1] == 'BitOr' and len(reads) == 1
+            if ok:
+                a, b = v[2], v[3]
+                shl, w = (a, b) if (a[0] == 'bin' and a[1] == 'Shl') else (b, a)
+                ok = shl[0] == 'bin' and shl[1] == 'Shl' and shl[2] == acc and shl[3][0] == 'c' and shl[3][1].endswith('<Word as BitArray>::BITS') \
+                    and sym.contains(w, lambda x: isinstance(x, tuple) and x and x[0] == 'call' and str(x[1]).endswith('ReadWords::read'))
+            guard = False
+            for t, val, _ in r.preds:
+                c = pow2.below_pow2(t, val)
+                if c is not None and c[0] == acc and c[2]:
+                    d = pow2.exp_cmp(pow2._exp_add(pow2.bits_of('State'), pow2.bits_of('Word'), -1), c[1])
+                    guard = d is not None and d >= 0
+            if not ok:
+                why = 'loop step is not acc = (acc << Word::BITS) | <one word read>'
+            elif not guard:
+                why = 'loop step is not guarded by acc < 2^(State::BITS - Word::BITS)'
+    if why:
+        ctx.unresolved('R6', role, ANS, 'from_binary: ' + why, key=key)
+        return
+    # ---- step B
+    ch = _chunker_counts_ceil(F)
+    n, k, W, S = Poly.var('n'), Poly.var('k'), Poly.var('W'), Poly.var('S')
+    one = Poly.const(1)
+    notes = []
+
+    def ev_t(t):
+        if sym.is_int(t):
+            return Poly.const(t[1])
+        if t[0] == 'c':
+            if t[1] == '<Word as BitArray>::BITS':
+                return W
+            if t[1] == '<State as BitArray>::BITS':
+                return S
+            raise _NoModel('constant ' + t[1])
+        if t[0] == 'cast':
+            return ev_t(t[2])
+        if t[0] == 'bin':
+            op = t[1].split('.')[0]
+            if op in ('Add', 'Sub', 'Mul'):
+                a, b = ev_t(t[2]), ev_t(t[3])
+                return a + b if op == 'Add' else (a - b if op == 'Sub' else a * b)
+            raise _NoModel('operator ' + t[1])
+        if t[0] == 'call':
+            nm = t[1]
+            if nm.endswith('BoundedReadWords::remaining') and _is_field(t[2][0], 'bulk'):
+                return n - k
+            if nm.endswith('leading_zeros') and _is_field(t[2][0], 'state'):
+                return S - one - k * W
+            if nm.endswith('ExactSizeIterator::len') and t[2][0][0] == 'call' and ch is not None and t[2][0][1] == ch.defpath and _is_field(t[2][0][2][0], 'state'):
+                return k + one
+            if nm in ('core::cmp::max', 'core::cmp::Ord::max') and len(t[2]) == 2:
+                a, b = ev_t(t[2][0]), ev_t(t[2][1])
+                if (a - b).nonneg():
+                    return a
+                if (b - a).nonneg():
+                    return b
+                raise _NoModel('max(%s, %s) not decided' % (a, b))
+            if nm.endswith('::saturating_sub') and len(t[2]) == 2:
+                a, b = ev_t(t[2][0]), ev_t(t[2][1])
+                if not (a - b).nonneg():
+                    notes.append('saturating_sub(%s, %s) may clamp' % (a, b))
+                return a - b
+            raise _NoModel('call ' + nm)
+        raise _NoModel('term ' + sym.show(t)[:60])
+    _, vp = rules.evaluate(nv)
+    r = only_return(vp)
+    if r is None:
+        ctx.unresolved('R6', role, ANS, 'num_valid_bits has several paths', key=key)
+        return
+    term = effects.strip_uid(rules.inline_pure(F, r.ret, depth=3, only=lambda d: d.startswith(ANS)))
+    try:
+        got = ev_t(term)
+    except _NoModel as u:
+        ctx.unresolved('R6', role, ANS, 'formula outside the model: %s' % u, key=key)
+        return
+    want = n * W
+    model = 'after k words were absorbed: remaining = n - k, bitlen(state) = 1 + k*W, leading_zeros = S - 1 - k*W, state chunks = k + 1'
+    # reachable states: the loop stops when the state is full (S = (k+1)*W) or when the data ran out first (k = n)
+    diff = got - want
+    full = diff.subst('S', (k + one) * W)
+    short = diff.subst('k', n)
+    if full.is_zero() and short.is_zero():
+        ctx.ok('R6', role, ANS, 'num_valid_bits = %s evaluates to %s, which equals n*W both when the state is full (S = (k+1)*W) and when the data ran out first (k = n) (%s)' % (sym.show(term)[:160], got, model), key=key)
+    else:
+        which = 'the state is full (S = (k+1)*W): off by %s' % full if not full.is_zero() else 'the data is shorter than the state (k = n < S/W - 1): off by %s' % short
+        ctx.bad('R6', role, ANS, 'num_valid_bits = %s evaluates to %s instead of n*W when %s (%s)%s' % (
+            sym.show(term)[:200], got, which, model, ('; ' + '; '.join(notes)) if notes else ''), key=key, loc=rules.loc(nv))
 
 
 def _is_field(t, *names):
@@ -428,6 +588,7 @@ def run(ctx):
     check_sentinels(ctx, F)
     check_bit_coder_sentinel(ctx, F)
     check_exhaustion_tolerance(ctx, F)
+    check_valid_bits(ctx, F)
     check_diagnostics(ctx, F)
     ctx.assume('remaining() of the backend is exact (C17 for the provided backends)')
     ctx.assume('ExactSizeIterator::len of bit_array_to_chunks_truncated equals the number of items it yields (std contract of Range/StepBy/Rev/Map)')
@@ -435,7 +596,7 @@ def run(ctx):
         'level': 'other',
         'explanation': 'Static agreement rules over extracted MIR: the value returned by num_words()/num_bits() is compared, as an affine form over symbolic atoms (remaining(bulk), chunk count of state, '
                        'num_seal_words()), with the number of words the export path appends (loop-summarised effect count); "empty" sentinels are compared as atoms between constructors and tests; '
-                       'diagnostic overrides are compared structurally with the trait defaults and checked for possibly-zero divisors. the tolerance of maybe_exhausted is compared with the sealing addend as power-of-two polynomials over the widths. Not decided: num_valid_bits, '
+                       'diagnostic overrides are compared structurally with the trait defaults and checked for possibly-zero divisors. the tolerance of maybe_exhausted is compared with the sealing addend as power-of-two polynomials over the widths. num_valid_bits() is evaluated over the bit-length model that from_binary establishes. Not decided: '
                        'bit-coder len(), the numeric value of the information-theoretic diagnostics.',
         'trusted_base': ['rustc type checker + MIR construction', 'cfacts extractor', 'iterator length algebra (vlib/effects.py)', 'std iterator contracts'],
     }
